@@ -8,6 +8,7 @@ CONSTANTS
   NoSync = FALSE
   MaxFaults = 1
   FaultCalls = {"open"}
+  RetryOn = FALSE
   CrashOn = FALSE
   BugPrecedence = FALSE
   BugLockLeak = TRUE
